@@ -614,7 +614,12 @@ func buildProgram(dir, src string) (string, error) {
 }
 
 func runSchedule(bin string, seed uint64, spurious, maxThreads, failCreate int) (string, string) {
-	cmd := exec.Command(bin)
+	// address-space randomisation off: pointer values (hashed map keys, channel
+	// addresses that order a select's cases) are then the same in every process
+	cmd := exec.Command("/usr/bin/setarch", "x86_64", "-R", bin)
+	if _, err := os.Stat("/usr/bin/setarch"); err != nil {
+		cmd = exec.Command(bin)
+	}
 	cmd.Env = []string{"LD_PRELOAD=" + bLib, "VERIF_SEED=" + strconv.FormatUint(seed, 10), "VERIF_SPURIOUS=" + strconv.Itoa(spurious), "GC_DONT_GC=1", "GC_MARKERS=1", "VERIF_MAX_STEPS=300000"}
 	if maxThreads > 0 {
 		cmd.Env = append(cmd.Env, "VERIF_MAX_THREADS="+strconv.Itoa(maxThreads))
